@@ -116,7 +116,7 @@ from vf.props import e1prop as _e1p  # noqa: E402
 from vf.ref import step as _rstep  # noqa: E402,F401
 from vf.ref.core import REG as _REG  # noqa: E402
 PLAN_REPEAT = _e1p.Plan('C07', sorted(n for n in _REG if n in _e1p.ROWS and _e1p.ROWS[n][0] in ('t16', 't32')), cfgs=('v6', 'v7', 'v5'),
-                        case_kw=lambda rng, row: {'mpu': False, 'mmu': False, 'e': 0})
+                        case_kw=lambda rng, row: {'mpu': False, 'mmu': False, 'e': 0}, hooked=(False, True))
 
 
 def run(ctx):
